@@ -58,7 +58,20 @@ def run(tier, seed):
     if any("tool_error" in o for o in obs):
         raise lib.ToolError("connection harness could not connect to the scripted peer")
     inj = [o for o in obs if o.get("id") == -1]
-    obs = [o for o in obs if o.get("id") != -1]
+    stalled = [o for o in obs if o.get("id") == -2]
+    obs = [o for o in obs if o.get("id") not in (-1, -2)]
+    if len(stalled) != 2:
+        raise lib.ToolError("the stalled-peer scenario did not run in both modes")
+    for o in stalled:
+        v.case("stalled " + o["mode"])
+        ok_ops = [i for i, r in enumerate(o["results"]) if r == "ok"]
+        case = {"mode": o["mode"], "scenario": "the peer stops reading for 2.6 s (connection timeout 1.5 s) while a send with a 24 MiB payload is in progress, then a link and a small send follow",
+                "operations_returned": o["results"], "whole_frames_read_by_the_peer": len(o["frames"]), "stream_ends_inside_a_frame": o["stream_ends_inside_a_frame"],
+                "connection_state_afterwards": o["state_after"]}
+        if len(o["frames"]) != len(ok_ops):
+            v.violation("what the peer reads is not one whole frame per operation that reported success: an operation gave up between two writes of its frame "
+                        "and the connection stayed usable, so the frames written after it are read as the rest of the torn one", case)
+        v.cov.setdefault("stalled_peer", {})[o["mode"]] = {"returned": o["results"], "frames": len(o["frames"]), "state_after": o["state_after"]}
     if len(inj) != 2 or any(o["failed_operations_injected"] < 10 for o in inj):
         raise lib.ToolError(f"the operations meant to fail in the encoder did not fail: {inj}")
     v.cov["operations_issued_after_failed_ones"] = sum(1 for o in obs if o.get("after_failed_operations"))
